@@ -38,6 +38,10 @@ def run(rep, tier, seed, replay):
     exprs = lib.inputs(rep, "C08", tier, seed, 2500, 30000, replay, lits=["a", "b", "ab", "A", "x.y", "..", ".", "é", "c", "1"])
     if replay is None:
         exprs += [e for e in ["a/b/*.rs", "src/{x,y}/**", "/a/*", "</a:1,>", "(?i)1/b*", "[/]/a/*", "a/b", "/", "/**", "a/**/b", "{a}/b/*", "<a/:2>*", "a/{b}/c*", "(?i)a/b*", "a/(?i)b/c*", "../*", "./a/*", "a/./*", "/**/a", "a/[b]/c*", "(?i)1/2/*"] if e not in set(exprs)]
+    if replay is None:
+        pres = ["a", "a/b", "x/a", "(?i)1", "{a}", "<a:2>"]
+        rooted = ["</b:1,>", "{/b,/c}", "</b/*:1,2>", "{/b,/c*}", "</b:1,>c", "</b:2>*", "{/b*,/c}", "</**/b:1,>", "{/b,/c}/d*", "<{/b,/c}:1,>"]
+        exprs += [a + b for a in pres for b in rooted if a + b not in set(exprs)]
     P = lib.Pair(exprs)
     h, m = P.h, P.m
     rep.evaluations = len(exprs)
